@@ -248,7 +248,7 @@ def mgrid(it, name, idx, node):
         if hi is None:
             raise Unsupported(f"{name} with an open slice", node)
         n = mk("ceil", mk("div", mk("sub", hi, lo), st))
-        A = fresh_axis(n, "g")
+        A = Axis(it.grid_symbol(len(axes), n), n, name="g")
         axes.append(A)
         comps.append(mk("add", lo, mk("mul", A.sym, st)))
     out = []
@@ -353,3 +353,78 @@ def sample_env(axes, rng, extra=None, size_lo=4, size_hi=48):
         for name in tm.symbols(A.sym):
             env[name] = float(rng.integers(0, max(n, 1)))
     return env
+
+
+def axes_from_shape(it, shape):
+    """axes of an array allocated with the given shape (a vector of dimension terms)"""
+    from .lib import as_arr
+    dims = None
+    if isinstance(shape, Seq):
+        dims = [to_term(x) for x in shape.items]
+    elif isinstance(shape, Arr):
+        dims = list(shape.cols)
+    else:
+        a = as_arr(shape) if shape is not None else None
+        if a is not None:
+            dims = list(a.cols)
+    if dims is None:
+        return None
+    return [Axis(it.grid_symbol(k, n), n, name="g") for k, n in enumerate(dims)]
+
+
+def slab_store(it, arr, idx, value, node):
+    """A[:, :, lo:hi] = value (slices / scalar indices per axis): conditional store on the index function"""
+    items = idx.items if isinstance(idx, Seq) and idx.kind == "tuple" else [idx]
+    if not any(isinstance(x, SliceV) and not x.is_full() for x in items):
+        return None
+    ax = axes_of(arr)
+    if ax is None:
+        ax = axes_from_shape(it, getattr(arr, "alloc_shape", None))
+    if ax is None or len(ax) != len(items):
+        return None
+    vax = axes_of(value)
+    cond = None
+    out_axes = []
+    for k, (A, x) in enumerate(zip(ax, items)):
+        va = vax[k] if vax is not None and len(vax) == len(ax) else None
+        if isinstance(x, SliceV) and x.is_full():
+            out_axes.append(va if va is not None else A)
+            continue
+        if A is None:
+            return None
+        out_axes.append(A)
+        if isinstance(x, SliceV):
+            if x.step is not None:
+                return None
+            if x.lower is not None:
+                c = mk("ge", A.sym, to_term(x.lower))
+                cond = c if cond is None else mk("and", cond, c)
+            if x.upper is not None:
+                c = mk("lt", A.sym, to_term(x.upper))
+                cond = c if cond is None else mk("and", cond, c)
+            if va is not None:
+                return None  # value varies along the sliced axis: offset bookkeeping not modelled
+        else:
+            c = mk("eq", A.sym, to_term(x))
+            cond = c if cond is None else mk("and", cond, c)
+    # the value is expressed over its own axes on the full-slice dimensions: rename them to the array's axes if they differ
+    vt = to_term(value)
+    v = Val(mk("ite", cond, vt, arr.term) if cond is not None else vt)
+    v.axes = out_axes
+    return v
+
+
+def tile(it, v, reps, node):
+    ax = axes_of(v)
+    if ax is None or not isinstance(reps, Seq):
+        return None
+    items = reps.items
+    if len(items) != len(ax):
+        return None
+    for A, r in zip(ax, items):
+        one = is_pyconst(r) and pyval(r) == 1
+        if not one and A is not None:
+            return None
+    out = Val(v.term, space=v.space)
+    out.axes = list(ax)
+    return out
